@@ -12,7 +12,7 @@ CLAIMED = {
    note="Assumed: strconv.ParseInt / strings.SplitN library models; decoded JSON values are well-formed (jsonval); extractSelectionSet's callees without contract are abstracted by their inferred write sets, so only what is stated about the folding decision is proved; the routing table is well-formed (proved in C04) and schema maps hold non-nil definitions.",
    ref="DESIGN.md §0.3 C01", technique="contract-based deductive verification (codec postconditions in the theory of strings, loop invariants over row slices, call-site obligation with ghost call record, z3+cvc5)"),
  'C03': dict(
-   text="Deductive proof of the union shape of the pairwise merge where it is a per-call property: mergeTypes (no error) yields exactly keys(a) ∪ non-builtin keys(b), all definitions non-nil; mergeRootObjects keeps every root field of the schema being merged in (prefix, by identity) and every non-builtin root field of the accumulated side (by name) - which is where the order-dependent loss of Query.node was found and fixed; mergeCustomObjectFields keeps every field name of the new side and, unless the result is a complete copy, of the accumulated side (where the loss of a one-sided `id` field was found and fixed); mergeCustomObjects keeps kind and name, every interface name and every union member of both sides (lo.Uniq model); the routing side is C04. Arguments, enum values and directives of shared non-root types as sets, the schema-level maps (Implements, PossibleTypes, Directives) and the final FormatSchema + LoadSchema round trip are not under contract.",
+   text="Deductive proof of the union shape of the pairwise merge where it is a per-call property: mergeTypes (no error) yields exactly keys(a) ∪ non-builtin keys(b), all definitions non-nil; mergeRootObjects keeps every root field of the schema being merged in (prefix, by identity) and every non-builtin root field of the accumulated side (by name) - which is where the order-dependent loss of Query.node was found and fixed; mergeCustomObjectFields keeps every field name of the new side and, unless the result is a complete copy, of the accumulated side (where the loss of a one-sided `id` field was found and fixed); mergeCustomObjects keeps kind and name, every interface name, union member, enum value name and applied-directive name of both sides (lo.Uniq / lo.UniqBy models, the key of UniqBy taken from the proved contract of the key closure); mergeDirectives keeps every directive definition of every service and adds none; the routing side is C04. The lifting of these per-definition facts through mergeTypes to whole schemas, the Implements / PossibleTypes maps and the final FormatSchema + LoadSchema round trip are not under contract.",
    note="Assumed: modifies clauses marked assumed (the merge helpers do not change the visible contents of the input schemas); gqlparser ForName model; AST non-nil invariants.",
    ref="DESIGN.md §5 C03", technique="contract-based deductive verification (set-shaped postconditions over maps and field lists, z3+cvc5)"),
  'C05': dict(
